@@ -95,6 +95,6 @@ def monitor (op obs : String) : String :=
       | none => "FAIL unparsable-observation"
       | some trace =>
         if trace.length ≠ ops.length then "FAIL observation-length"
-        else if holdsTrace wallet ops trace then "ok" else "FAIL restart-rule"
+        else if holdsTrace wallet [] ops trace then "ok" else "FAIL registry-rule"
 
 def main (args : List String) : IO UInt32 := driverMain model monitor args
